@@ -101,6 +101,26 @@ def run(ctx):
             pj = params_json(before)
             idx = drv.add(dict(pj, op="setparams", set=[[fld, enc(v)]]))
             pending.append(("setparams", idx, params_json(after), case))
+        # --- an estimator whose configuration is the design workflow's ConfigView (what fit_model hands to the grid search)
+        try:
+            from formak import ui_state_machine as _sm
+            a6 = copy.copy(ad)
+            view = _sm.ConfigView({"max_dt_sec": 0.2, "innovation_filtering": 3.0})
+            a6.set_params(config=view)
+            for fld, v in (("max_dt_sec", 0.07), ("innovation_filtering", None), ("common_subexpression_elimination", False)):
+                case = dict(desc, op="set-config-on-ConfigView", field=fld, value=repr(v))
+                ctx.case(case, True); ctx.count("op=set-config-on-ConfigView")
+                prev = {k2: getattr(a6.get_params()["config"], k2) for k2 in ("common_subexpression_elimination", "extra_validation", "max_dt_sec", "innovation_filtering")}
+                try:
+                    a6.set_params(**{fld: v})
+                except Exception as e:
+                    ctx.fail(f"set-config-raises:{fld}:ConfigView", f"set_params({fld}=...) on an estimator configured with a ConfigView raises {e!r}"[:300], case)
+                    break
+                now = {k2: getattr(a6.get_params()["config"], k2) for k2 in prev}
+                if now != dict(prev, **{fld: v}):
+                    ctx.fail(f"set-config-frame:{fld}:ConfigView", f"set_params({fld}={v!r}) on a ConfigView gives {now}, expected {dict(prev, **{fld: v})}", case)
+        except Exception as e:
+            ctx.fail(f"adapter-raises:{fk.exc_kind(e)}:ConfigView", repr(e)[:300], dict(desc, op="set-config-on-ConfigView"))
         # --- several parameters in ONE call (what GridSearchCV does with a multi-parameter grid)
         for trial in range(3):
             names = ctx.rng.sample(["max_dt_sec", "innovation_filtering", "extra_validation", "common_subexpression_elimination"], 2)
@@ -196,7 +216,13 @@ def run(ctx):
         if i % 4 == 1 or i % 4 == 3:
             # constant-velocity model: passes the (slow) extra validation quickly, so extra_validation=True can be exercised
             xs, vs, us, dts = sympy.symbols("px pv pu dt")
-            d = gen.Definition(dts, [xs, vs], [us], [], {xs: xs + dts * vs, vs: vs + dts * us}, {"odo": {"speed": vs, "place": xs}})
+            d = gen.Definition(dts, [xs, vs], [us], [], {xs: xs + dts * vs, vs: vs + dts * us},
+                               {"odo": {"speed": vs, "place": (xs + 1) * (vs + 1) - xs * vs - vs - 1}})      # (= place, written unsimplified)
+        if i % 2 == 0:
+            # (CSE stays on for these) a reading written in unsimplified form: + (a+1)(b+1) - ab - a - b - 1, which is zero
+            k0 = sorted(d.sensors)[0]; r0 = sorted(d.sensors[k0])[0]
+            a_, b_ = d.state[0], d.state[-1]
+            d.sensors[k0][r0] = d.sensors[k0][r0] + (a_ + 1) * (b_ + 1) - a_ * b_ - a_ - b_ - 1
         process, sensor = eh.make_noises(ctx.rng, d)
         integer_matrix = (i % 4 == 3)
         if integer_matrix:
@@ -218,6 +244,8 @@ def run(ctx):
         before = ad.get_params()
         keep = {k: before[k] for k in ("symbolic_model", "sensor_models", "calibration_map", "config")}
         sens_shape = {k: sorted(map(str, rd)) for k, rd in before["sensor_noises"].items()}
+        # the sensor models as WRITTEN (a snapshot taken now: the dict objects themselves could be edited in place)
+        written = {k: {str(r): sympy.srepr(sympy.sympify(e)) for r, e in rd.items()} for k, rd in before["sensor_models"].items()}
         case = {"def": d.describe(), "op": "fit", "X": X.tolist(), "noise": {a: str(b) for a, b in process.items()},
                 "sensor_noise": {a: {r: str(v) for r, v in b.items()} for a, b in sensor.items()}}
         ctx.case(case, True); ctx.count("op=fit")
@@ -237,6 +265,10 @@ def run(ctx):
             if any(after[k] is not keep[k] for k in keep if k != "config") or dataclasses.asdict(after["config"]) != cfg_value_before:
                 ctx.fail("fit-changes-non-noise", "fit changed the model, the sensor models, the calibration or the configuration "
                          f"(config before {cfg_value_before}, after {dataclasses.asdict(after['config'])})", case)
+            now_written = {k: {str(r): sympy.srepr(sympy.sympify(e)) for r, e in rd.items()} for k, rd in after["sensor_models"].items()}
+            if now_written != written:
+                ctx.fail("fit-rewrites-sensor-models", "after fit the estimator's sensor models are not the expressions it was given "
+                         f"(was {written}, now {now_written})", case)
             pn = after["process_noise"]
             if sorted(str(k) for k in pn) != sorted(s.name for s in d.control) or any(not (math.isfinite(v) and v > 0) for v in pn.values()):
                 ctx.fail("fit-process-noise", f"fitted process noise {pn} is not a finite positive magnitude per control", case)
